@@ -224,8 +224,9 @@ def rule_R20_3(ctx):
                        % (v, v in rej, want), where=mir.span_loc(f.span))
     # validator: switch on a RawExpr that is not rooted at a parameter (queue item)
     for f in prog.hand_fns():
-        if f.is_closure or f.from_expansion or f.module != "eval":
-            continue
+        if f.is_closure or f.from_expansion or f.module.startswith(BMOD[0]) \
+                or f.module.startswith(SMOD[0]) or f.generated:
+            continue      # (the validator lives with the evaluator, not the binder)
         sites = [(bb, kd) for bb, i, pl, kd, ao, sp in f.aggregates(ERR, "InvalidBindTarget")]
         if not sites and not any((ERR, "InvalidBindTarget") in ops.constructs(prog, g)
                                  for g in prog.closures_of(f.path)):
